@@ -16,7 +16,7 @@ def cases_for(seed, n, tier):
     if tier == "quick":
         grid = r.sample(grid, 60)
     rnd = [gen.gen_core_prog(r, ATOMS2 if i % 3 else ATOMS3, True, neg_atoms=(i % 5 == 0)) for i in range(n)]
-    return grid + rnd
+    return gen.future_sign_cases() + grid + rnd
 
 def correspondence(ctx):
     cases = cases_for(ctx.seed * 17 + 1, 150 if ctx.tier == "quick" else 2000, ctx.tier)
